@@ -272,8 +272,10 @@ pub fn check_strings(c: &StrCase, st: &mut Stats) -> Result<(), String> {
             let _ = stun_rs::attributes::turn::AddressErrorCode::new(AddressFamily::IPv6, e);
         }
         Err(_) => {
-            if (300..=699).contains(&c.code) {
-                return Err(format!("ErrorCode::new({}) refused", c.code));
+            // a refusal is only wrong for a valid code with a reason phrase inside the documented limit (509 bytes on the
+            // wire); what the constructor does with longer phrases is its own business as long as it returns
+            if (300..=699).contains(&c.code) && s.len() <= 509 {
+                return Err(format!("ErrorCode::new({}) refused a {}-byte reason phrase", c.code, s.len()));
             }
         }
     }
